@@ -1400,6 +1400,41 @@ func enumWitness(tier string) []interface{} {
 			}
 		}
 	}
+	// every packet type (PUBLISH at QoS 0, 1 and 2) with every remaining length
+	// smaller than the real one, the rest of the bytes and a PINGREQ following
+	// at once: the decoders must not take fields from behind the packet
+	for t := byte(2); t <= 14; t++ {
+		for q := 0; q < 3; q++ {
+			if t != refmqtt.PUBLISH && q > 0 {
+				break
+			}
+			sp := samplePacket(t, int(t))
+			if t == refmqtt.PUBLISH {
+				sp.QoS, sp.ID, sp.Topic, sp.Payload = byte(q), uint16(7*q), "a/b", payload(90, q, 8)
+			}
+			b := refmqtt.Encode(sp)
+			if b[1] >= 0x80 {
+				continue
+			}
+			for rl := 0; rl < int(b[1]); rl++ {
+				x := &g{r: simrt.NewRand(uint64(t)*100000 + uint64(rl)*8 + uint64(q)), sc: &Script{}, tier: tier}
+				x.sc.Profile = "witness"
+				x.knobs()
+				x.sc.Knobs.LinkCap = 65536
+				x.alphabet(false)
+				x.seq = make([]int, 3)
+				x.pid = make([]int, 3)
+				wp, ws := x.witnessPair(1)
+				c := append([]byte{}, b...)
+				c[1] = byte(rl)
+				c = append(c, 0xc0, 0x00)
+				cl := Client{Role: "attacker"}
+				cl.Ops = append(cl.Ops, Op{K: "barrier"}, Op{K: "connect", CID: "att", Clean: true, KA: 600, Auth: true, User: "a", Pass: "secret-a"}, Op{K: "raw", Raw: c})
+				x.sc.Clients = append(x.sc.Clients, wp, ws, cl)
+				out = append(out, x.sc)
+			}
+		}
+	}
 	return out
 }
 
